@@ -77,6 +77,11 @@ CM_POOL = ['plain', 'two\nlines', "quote ' and \" here", "'; DROP TABLE users; -
            'Table evil {\n  id int\n}', 'ends with backslash \\', 'CREATE TABLE "x" ("y" int);', 'ü 日本 😀', 'a -- b // c', 'x\n\ny']
 
 
+# characters Python's str.splitlines() breaks at but DBML / SQL line comments do not: inside a comment they are ordinary
+# characters (top-level elements only: inside indented bodies see KF on exotic line breaks)
+CM_TOP_POOL = CM_POOL + ['a\u2028b', 'form\x0cfeed', 'ver\x0btab', 'nel\x85x', 'sep\x1cx \u2029 y']
+
+
 def render_job(seed):
     """comments on an API-built database: rendered as prefixed comment lines, never part of a statement"""
     rng = random.Random(seed)
@@ -85,24 +90,24 @@ def render_job(seed):
         return None
     with_c = copy.deepcopy(spec)
 
-    def maybe():
-        return rng.choice(CM_POOL) if rng.random() < 0.5 else None
+    def maybe(pool=CM_POOL):
+        return rng.choice(pool) if rng.random() < 0.5 else None
     for t in with_c['tables']:
-        t['comment'] = maybe()
+        t['comment'] = maybe(CM_TOP_POOL)
         for c in t['columns']:
             c['comment'] = maybe()
         for ix in t['indexes']:
             ix['comment'] = maybe()
     for e in with_c['enums']:
-        e['comment'] = maybe()
+        e['comment'] = maybe(CM_TOP_POOL)
         for it in e['items']:
             it['comment'] = maybe()
     for r in with_c['refs']:
-        r['comment'] = None if EX.eff_inline(r) else maybe()    # an inline reference cannot carry a comment in DBML
+        r['comment'] = None if EX.eff_inline(r) else maybe(CM_TOP_POOL)    # an inline reference cannot carry a comment in DBML
     for g in with_c['groups']:
-        g['comment'] = maybe()
+        g['comment'] = maybe(CM_TOP_POOL)
     if with_c['project'] is not None:
-        with_c['project']['comment'] = maybe()
+        with_c['project']['comment'] = maybe(CM_TOP_POOL)
     fails = []
     try:
         db0, _ = GD.build(spec)
@@ -216,7 +221,7 @@ def main(tier, seed):
                     '(optComment_eq), collected by `_c` exactly (cBefore_comment at the start of the text, cBefore_nl_comment after the previous element; '
                     'comment_line_ok) and stored on that very table: flags_tables_roundtrip_partial / flags_refs_roundtrip_partial (C02FlagsTables.lean) - '
                     'documents of any number of tables, each possibly under a comment, round-trip with the comments on the same tables. The Lean parser and renderer models must agree on all of it.',
-        assumptions=['comment lines are LF-separated as the code defines them (CR / U+2028 inside a comment are outside the generated texts)'],
+        assumptions=['comment lines are LF-separated as the code defines them; U+2028 / FF / VT / NEL inside a comment are generated for top-level elements only (inside indented bodies the re-indentation splits at them: recorded under C13)'],
         trusted_base=['Lean 4.33 kernel', 'hand-written models tied by this correspondence', 'harness/speller.py placement rules'],
         kf_replay=None, proof_problems=problems)
 
